@@ -33,7 +33,7 @@ type hist struct {
 	w    *progs.World
 	ops  []progs.Op
 	omit bool
-	conf bool // kinds may clash between programs
+	conf bool   // kinds may clash between programs
 	slow string // slow.go: the program that carries the inert rules ("" = none)
 }
 
@@ -433,6 +433,11 @@ func main() {
 			out.Violate(f.class, f.what, map[string]any{"kind": "history", "case": c})
 		}
 	}
+	sr := 40
+	if a.Thorough() {
+		sr = 400
+	}
+	scrapeDuringReload(out, rng, sr)
 	out.Flush("load/reload/unload/line/GC histories (7-13 steps) over 1-4 programs drawing metric names from {x,y,z} (every third history lets kinds clash between programs); each program is re-run alone and compared step by step; plus 1 (thorough: 3) history in which one program is kept busy for 6.5 (12, 32) s by a long line while further lines are sent back to back to it and 1-3 fast programs; non-trivial when two programs hold data under the same metric name at some step", false)
 }
 
